@@ -571,6 +571,14 @@ def _wrap_draw():
         if not HUB.active:
             return orig_vis(self, **kwargs)
         given = dict(kwargs)
+        if isinstance(given.get("aliases"), dict):
+            # what the caller specified: a copy taken before the call, or - when a driver re-uses one dict object
+            # over several calls - the specification the driver says it wrote into that object
+            intent = getattr(HUB, "alias_intent", None)
+            HUB.alias_intent = None
+            given["aliases"] = dict(intent) if intent is not None else dict(given["aliases"])
+            if intent is not None:
+                HUB.acc.count("c17_calls_with_reused_alias_object")
         state = graph_state(self)
         n0 = len(HUB.draw_calls)
         exc = None
